@@ -10,3 +10,11 @@ mod phase_accumulator;
 pub mod quantizer;
 pub mod ribbon_controller;
 mod utils;
+
+/// Read-only access to private tables and constants for external verification tooling
+#[cfg(feature = "verif-hooks")]
+pub mod verif_hooks {
+    pub use crate::lookup_tables::*;
+    pub use crate::utils::{fabs, ilog_2, is_almost, linear_interp};
+    pub use crate::phase_accumulator::PhaseAccumulator;
+}
